@@ -520,3 +520,27 @@ Proof.
   - eexists. split; [vm_compute; reflexivity|]. eexists. vm_compute. reflexivity.
   - eexists. split; [vm_compute; reflexivity|]. vm_compute. reflexivity.
 Qed.
+
+(* D16, the top product's own name: p4 2 needs p2 1, which needs p4 2 back and a bare p4 that does not
+   resolve.  The listing of p4 2 holds the stub p4 None (the top product itself is dropped from it), so
+   the pinned code pinned p4 to None, the line p4 2 of p2 1 denoted a stub in the second walk and
+   checkCycles passed.  The repaired code never pins the name of the top product. *)
+Definition w_d16_root : world :=
+  [ pr "p2" "1" [ed "p4" None None false; ed "p4" (Some "2") (Some "2") true];
+    pr "p4" "2" [ed "p2" (Some "1") (Some "1") false] ].
+
+Example root_name_refuted_pinned :
+  proper_cycle w_d16_root (nd "p4" "2") /\
+  (exists g, topo_graph_byname_pinned 4 w_d16_root (nd "p4" "2") = Ok g /\ exists NL, check_cycles g = Ok NL) /\
+  (exists g, topo_graph 4 w_d16_root (nd "p4" "2") = Ok g /\ check_cycles g = Err Refused) /\
+  dependent_products 4 w_d16_root (nd "p4" "2") true = Ok [ (nd "p2" "1", false, 1); (stub "p4" None, false, 2) ].
+Proof.
+  split.
+  - exists (nd "p4" "2"), (nd "p2" "1"). split; [left; reflexivity|]. split; [discriminate|].
+    split; apply rp_one.
+    + eexists _, (ed "p2" (Some "1") (Some "1") false). split; [reflexivity|]. split; [left; reflexivity | reflexivity].
+    + eexists _, (ed "p4" (Some "2") (Some "2") true). split; [reflexivity|]. split; [right; left; reflexivity | reflexivity].
+  - split; [eexists; split; [vm_compute; reflexivity|]; eexists; vm_compute; reflexivity|].
+    split; [eexists; split; [vm_compute; reflexivity|]; vm_compute; reflexivity|].
+    vm_compute. reflexivity.
+Qed.
